@@ -102,5 +102,10 @@ def modStep (s : ModState) : Rec → ModState × Rec
         .iterall kind cur (iterAll (modelOracle s.p k.fs) cur (2 * k.fs.feats.length + 8)))
   | .roundtrip _ => (s, .roundtrip true)
   | .codec _ => (s, .codec true)
+  | .readonly touch =>
+    -- `lookupResourceHandler` walks `resourceTemplates.all()`, which (re)builds the sorted index
+    match touch with
+    | some kind => (s.set kind { s.get kind with fs := (s.get kind).fs.sortKeys }, .readonly touch)
+    | none => (s, .readonly touch)
 
 end Paginate
